@@ -435,6 +435,8 @@ def tableau_problems(gs, ps, r):
     psi = np.asarray(ps).astype(np.int64) % 4
     if np.any(psi[ri:N] % 2 != 0):
         out.append("active stabilizer with imaginary phase")
+    elif np.any(psi % 2 != 0):
+        out.append("tableau row with imaginary phase (standby or destabilizer row is not a Hermitian operator)")
     if not np.array_equal(anti_mat(gs.astype(np.int64)), tableau_pattern(N)):
         out.append("rows do not satisfy canonical (anti)commutation pattern")
     return out
